@@ -226,6 +226,15 @@ Proof.
     pose proof (bytes_ok_flat_large l) as Hb. pose proof (length_flat_large l) as Hlen.
     destruct (flat_map _ l) as [|x0 b0] eqn:Eb; [discriminate|]. injection H as <-. cbn [a_data] in Hl.
     finish_wf; try discriminate. all: rewrite Hlen; apply Nat.mod_mul; lia.
+  - (* MpReach *)
+    destruct fam as [[afi safi]|]; [|discriminate]. destruct (_ || _); [discriminate|].
+    destruct (_ && _).
+    + injection H as <-. cbn [a_data] in Hl. finish_wf. unfold be16. repeat constructor; lia.
+    + destruct nhs as [|nh r]; [discriminate|].
+      destruct (ip4_of_string nh) as [v|].
+      * injection H as <-. cbn [a_data] in Hl. finish_wf. repeat constructor; lia.
+      * destruct (v6r nh) as [v|]; [|discriminate]. injection H as <-. cbn [a_data] in Hl. finish_wf.
+        repeat constructor; lia.
 Qed.
 
 (* any value attr_from_api accepts satisfies the invariants of values accepted from the wire *)
